@@ -1,40 +1,66 @@
 ----------------------------- MODULE MC_Globals -----------------------------
 (* Model check of the implementation-shaped model against the register semantics over every
    reference sequence of the bounded space, and export of that space as cases.ndjson.
-   The space: both ways of supplying (value, pointer) x both file shapes (plain, extends) x
-     - every sequence of <= MaxLen references to ONE global (X), plus the silent pkgvar reference
-     - every sequence of <= MaxLenLite references to ONE global over the "lite" alphabet (no pkgvar,
-       no hoisted closure: the hoisted macro already is "a function literal met first")
-     - every sequence of <= MaxLen2 references to TWO globals (X and Y), up to renaming
-       (the first global referenced is X); the longest length over the lite alphabet only
-   over the scopes of the shape x {read, write} x {declaration hoisted or not} (macro, closure). *)
+   The space: {int by value, int by pointer, any by pointer} x both file shapes (plain, extends) x sequences of
+   references, where the longer a sequence the smaller its alphabet ("level"):
+     F     everything Globals.WellFormed allows: {r, d, w} x nesting {none, literal, macro} x joined
+           references x hoisting x the silent pkgvar reference                        length <= MaxLenF
+     Old   {r, w}, no nesting, no joining (with pkgvar and hoisted closures)           length <= MaxLenOld
+     E     {r, w}, nesting in a literal, joining (no pkgvar, no hoisted closure)       length <= MaxLenE
+     Lite  {r, w}, no nesting, no joining, no pkgvar, no hoisted closure               length <= MaxLenLite
+   References to TWO globals (X and Y, up to renaming: the first global referenced is X): level E up to
+   length 2, level Lite above, up to MaxLen2.  Type any (pointer only: a value of static type any cannot be put in
+   Run's map) only at level F, one global.  The check adds seeded random longer sequences (driver, -extra). *)
 EXTENDS Globals, TLC, Json, SequencesExt
-CONSTANTS MaxLen, MaxLenLite, MaxLen2, Mode
+CONSTANTS MaxLenF, MaxLenOld, MaxLenE, MaxLenLite, MaxLen2, Mode
 
 Scopes(ext) == IF ext THEN {"layout", "extending", "macro", "closure", "imported", "rendered"}
                ELSE {"top", "macro", "closure", "imported", "rendered"}
-\* a reference without its written value (set from the position when the sequence is built)
+\* every reference (without its written value, set from the position) that can occur at some position
 RefSet(ext, vars) ==
-  {[sc |-> s, op |-> o, var |-> v, hoist |-> 0] : s \in Scopes(ext), o \in {"r", "w"}, v \in vars}
-  \cup {[sc |-> s, op |-> o, var |-> v, hoist |-> 1] : s \in {"macro", "closure"}, o \in {"r", "w"}, v \in vars}
-  \cup {[sc |-> "pkgvar", op |-> "r", var |-> "X", hoist |-> 0]}
-WithVal(r, pos) == [sc |-> r.sc, op |-> r.op, var |-> r.var, hoist |-> r.hoist, v |-> IF r.op = "w" THEN 10 + pos ELSE 0]
+  {r \in [sc : Scopes(ext), op : {"r", "d", "w"}, var : vars, hoist : {0, 1}, nest : {0, 1, 2}, join : {0, 1}] :
+      /\ r.sc \in {"top", "layout"} => (r.nest = 0 /\ r.join = 0 /\ r.hoist = 0)
+      /\ r.sc = "closure" => (r.nest \in {0, 1} /\ r.join = 0 /\ r.op # "d")
+      /\ r.sc \in {"imported", "rendered", "extending"} => r.hoist = 0
+      /\ r.op = "d" => r.nest # 1}
+  \cup {[sc |-> "pkgvar", op |-> "r", var |-> "X", hoist |-> 0, nest |-> 0, join |-> 0]}
+WithVal(r, pos) == [sc |-> r.sc, op |-> r.op, var |-> r.var, hoist |-> r.hoist, nest |-> r.nest, join |-> r.join,
+                    v |-> IF r.op = "w" THEN 10 + pos ELSE 0]
 
+IsOldRef(r) == r.op # "d" /\ r.nest = 0 /\ r.join = 0
+IsERef(r) == r.op # "d" /\ r.nest \in {0, 1} /\ ~(r.sc = "closure" /\ (r.nest = 1 \/ r.hoist = 1)) /\ r.sc # "pkgvar"
+IsLiteRef(r) == IsOldRef(r) /\ r.sc # "pkgvar" /\ ~(r.sc = "closure" /\ r.hoist = 1)
+All(refs, P(_)) == \A i \in 1..Len(refs) : P(refs[i])
 UsesY(refs) == \E i \in 1..Len(refs) : IsGlobalRef(refs[i]) /\ refs[i].var = "Y"
 \* up to renaming: Y only after X has been referenced
 Canon(refs) == \A i \in 1..Len(refs) : (IsGlobalRef(refs[i]) /\ refs[i].var = "Y")
                    => \E j \in 1..(i - 1) : IsGlobalRef(refs[j]) /\ refs[j].var = "X"
-IsLiteRef(r) == r.sc # "pkgvar" /\ ~(r.sc = "closure" /\ r.hoist = 1)
-IsLite(refs) == \A i \in 1..Len(refs) : IsLiteRef(refs[i])
 \* (IF, not \/ : TLC would split an action on a disjunction and generate the same successor twice)
-Allowed(refs) == /\ IF Len(refs) <= MaxLen THEN TRUE ELSE (Len(refs) <= MaxLenLite /\ IsLite(refs))
-                 /\ IF UsesY(refs) THEN (Len(refs) <= MaxLen2 /\ Canon(refs) /\ (IF Len(refs) < MaxLen2 THEN TRUE ELSE IsLite(refs))) ELSE TRUE
+Allowed(typ, refs) ==
+  LET n == Len(refs) IN
+  IF typ = "any" THEN n <= MaxLenF /\ ~UsesY(refs)
+  ELSE IF UsesY(refs) THEN Canon(refs) /\ n <= MaxLen2 /\ (IF n <= 2 THEN All(refs, IsERef) ELSE All(refs, IsLiteRef))
+  ELSE IF n <= MaxLenF THEN TRUE
+  ELSE IF n <= MaxLenOld /\ All(refs, IsOldRef) THEN TRUE
+  ELSE IF n <= MaxLenE /\ All(refs, IsERef) THEN TRUE
+  ELSE n <= MaxLenLite /\ All(refs, IsLiteRef)
+\* a reference that some allowed sequence can have at position k (prunes the enumeration below)
+RefAllowedAt(r, k, two) == IF two THEN (IF k <= 2 THEN IsERef(r) ELSE IsLiteRef(r))
+                           ELSE k <= MaxLenF \/ (k <= MaxLenOld /\ IsOldRef(r)) \/ (k <= MaxLenE /\ IsERef(r)) \/ (k <= MaxLenLite /\ IsLiteRef(r))
+MaxOf(a, b) == IF a > b THEN a ELSE b
+MaxAny == MaxLenF
+TypSup == {<<"int", "value">>, <<"int", "pointer">>, <<"any", "pointer">>}
 
 VARIABLE c
-Init == c \in {[sup |-> s, ext |-> e, init |-> <<5, 6>>, refs |-> <<>>] : s \in {"value", "pointer"}, e \in BOOLEAN}
-Next == \E r \in RefSet(c.ext, {"X", "Y"}) :
+Init == c \in {[typ |-> ts[1], sup |-> ts[2], ext |-> e, init |-> <<5, 6>>, refs |-> <<>>] : ts \in TypSup, e \in BOOLEAN}
+\* the references that can stand at position k (a constant function: evaluated once, not at every state)
+MaxK == MaxOf(MaxOf(MaxLenF, MaxLenOld), MaxOf(MaxOf(MaxLenE, MaxLenLite), MaxLen2))
+NextRefs == [e \in BOOLEAN, k \in 1..(MaxK + 1) |->
+               {r \in RefSet(e, {"X", "Y"}) : RefAllowedAt(r, k, FALSE) \/ (k <= MaxLen2 /\ RefAllowedAt(r, k, TRUE))}]
+Next == \E r \in NextRefs[c.ext, Len(c.refs) + 1] :
            LET refs2 == Append(c.refs, WithVal(r, Len(c.refs) + 1)) IN
-           /\ Allowed(refs2)
+           /\ WellFormedRef(refs2, Len(refs2))
+           /\ Allowed(c.typ, refs2)
            /\ c' = [c EXCEPT !.refs = refs2]
 
 (* ---- design-level results (Mode = "theorems": all must hold) ---- *)
@@ -51,6 +77,7 @@ SameObs(a, b) == /\ a.reads1 = b.reads1 /\ a.caller1 = b.caller1 /\ a.reads2 = b
 ThUsedVarsReported(w, ref) == ref.used \subseteq w.used
 
 FixedMeetsRef == ThFixedMeetsRef(ImplRun(c, Fixed), RefRun(c))
+UsedVarsReportedFixed == ThUsedVarsReported(ImplRun(c, Fixed), RefRun(c))
 AsWrittenDeviatesOnlyIf == ThAsWrittenDeviatesOnlyIf(ImplRun(c, AsWritten), RefRun(c))
 PkgFixLeavesOnlyCross == ThPkgFixLeavesOnlyCross(ImplRun(c, OnlyPkgFixed), RefRun(c))
 DedupFixLeavesOnlyLitFirst == ThDedupFixLeavesOnlyLitFirst(ImplRun(c, OnlyDedupFixed), RefRun(c))
@@ -59,8 +86,8 @@ UsedVarsReported == ThUsedVarsReported(ImplRun(c, AsWritten), RefRun(c))
 \* The main run (whole space) checks CoreTheorems; a second run on a smaller space checks AllTheorems; each
 \* model is evaluated once per state.  On a violation the check re-runs the six separately to name the one that fails.
 CoreTheorems ==
-  LET ref == RefRun(c) w == ImplRun(c, AsWritten) f == ImplRun(c, Fixed) IN
-  ThFixedMeetsRef(f, ref) /\ ThAsWrittenDeviatesOnlyIf(w, ref) /\ ThUsedVarsReported(w, ref)
+  LET ref == RefRun(c) f == ImplRun(c, Fixed) IN
+  ThFixedMeetsRef(f, ref) /\ ThUsedVarsReported(f, ref)
 AllTheorems ==
   LET ref == RefRun(c) w == ImplRun(c, AsWritten) f == ImplRun(c, Fixed) IN
   /\ ThFixedMeetsRef(f, ref) /\ ThAsWrittenDeviatesOnlyIf(w, ref)
@@ -80,15 +107,22 @@ Pow(n, k) == IF k = 0 THEN 1 ELSE n * Pow(n, k - 1)
 \* the j-th (0-based) sequence of length k over the alphabet A (a sequence of references)
 DecodeSeq(A, k, j) == [i \in 1..k |-> WithVal(A[((j \div Pow(Len(A), i - 1)) % Len(A)) + 1], i)]
 AllSeqs(A, k) == [j \in 1..Pow(Len(A), k) |-> DecodeSeq(A, k, j - 1)]
-RECURSIVE SeqsBetween(_, _, _)
-SeqsBetween(A, lo, hi) == IF lo > hi THEN <<>> ELSE AllSeqs(A, lo) \o SeqsBetween(A, lo + 1, hi)   \* lengths lo..hi
+\* all well-formed allowed sequences of length k over the references usable at length k (enumerated by index
+\* decoding over a sequence alphabet, then filtered)
+SeqsOfLen(typ, ext, vars, k) ==
+  LET A == SetToSeq({r \in RefSet(ext, vars) : RefAllowedAt(r, k, vars # {"X"})}) IN
+  SelectSeq(AllSeqs(A, k), LAMBDA s : WellFormed(ext, s) /\ Allowed(typ, s) /\ (vars = {"X"} \/ UsesY(s)))
+RECURSIVE SeqsUpTo2(_, _, _, _, _)
+SeqsUpTo2(typ, ext, vars, k, hi) == IF k > hi THEN <<>> ELSE SeqsOfLen(typ, ext, vars, k) \o SeqsUpTo2(typ, ext, vars, k + 1, hi)
+MaxOne == MaxOf(MaxOf(MaxLenF, MaxLenOld), MaxOf(MaxLenE, MaxLenLite))
+RefSeqs(typ, ext) == IF typ = "any" THEN SeqsUpTo2(typ, ext, {"X"}, 0, MaxAny)
+                     ELSE SeqsUpTo2(typ, ext, {"X"}, 0, MaxOne) \o SeqsUpTo2(typ, ext, {"X", "Y"}, 2, MaxLen2)
+Mk(typ, sp, e, R) == [i \in 1..Len(R) |-> [typ |-> typ, sup |-> sp, ext |-> e, refs |-> R[i]]]
+CasesOfShape(e) == LET R == RefSeqs("int", e) IN
+                   Mk("int", "value", e, R) \o Mk("int", "pointer", e, R) \o Mk("any", "pointer", e, RefSeqs("any", e))
 \* (operators with a dummy parameter: TLC evaluates zero-argument constant definitions at start-up, in every Mode)
-RefSeqs(ext) == SeqsBetween(SetToSeq(RefSet(ext, {"X"})), 0, MaxLen)
-                \o SeqsBetween(SetToSeq({r \in RefSet(ext, {"X"}) : IsLiteRef(r)}), MaxLen + 1, MaxLenLite)
-                \o SelectSeq(SeqsBetween(SetToSeq(RefSet(ext, {"X", "Y"})), 0, MaxLen2), LAMBDA s : UsesY(s) /\ Allowed(s))
-CasesOf(sp, e) == LET R == RefSeqs(e) IN [i \in 1..Len(R) |-> [sup |-> sp, ext |-> e, refs |-> R[i]]]
-Flat(dummy) == CasesOf("value", FALSE) \o CasesOf("pointer", FALSE) \o CasesOf("value", TRUE) \o CasesOf("pointer", TRUE)
+Flat(dummy) == CasesOfShape(FALSE) \o CasesOfShape(TRUE)
 Cases(dummy) == LET F == Flat(dummy) IN
-                [i \in 1..Len(F) |-> [id |-> i, sup |-> F[i].sup, ext |-> F[i].ext, init |-> <<5, 6>>, refs |-> F[i].refs]]
+                [i \in 1..Len(F) |-> [id |-> i, typ |-> F[i].typ, sup |-> F[i].sup, ext |-> F[i].ext, init |-> <<5, 6>>, refs |-> F[i].refs]]
 ASSUME Mode = "theorems" => ndJsonSerialize("cases.ndjson", Cases(0))
 =============================================================================
